@@ -826,7 +826,7 @@ func (d *structDecoder) Decode(ctx *RuntimeContext, cursor, depth int64, p unsaf
 					cursor = c
 					seenFieldNum++
 					if d.fieldUniqueNameNum <= seenFieldNum {
-						return skipObject(buf, cursor, depth)
+						return skipObjectRest(buf, cursor, depth)
 					}
 					seenFields[field.fieldIdx] = struct{}{}
 				}
